@@ -5,3 +5,6 @@ PROPS = {
     'C07': ('core_family', 'c07'),
     'C08': ('core_family', 'c08'),
 }
+PROPS['C16'] = ('sched_family', 'c16')
+PROPS['C17'] = ('sched_family', 'c17')
+PROPS['C05'] = ('sched_family', 'c05')
